@@ -244,3 +244,136 @@ Definition direct_summand (D : list (list Qc)) (df : Qc) (pl : plate) (t : tripl
 Definition direct (D : list (list Qc)) (df : Qc) (ts : list triple) (pl : plate) : ext :=
   logsumexp (map (direct_summand D df pl) ts).
 End Dbal.
+
+(* ==== vocabulary of the source-translation links (harness/src_functions.py, C05_*; no proofs) ====
+   What the Gallina translations of GaussianDBALScorer.score, dbal_fast_gaussian_scoring_heteroscedastic /
+   _homoscedastic, pad_ragged_arrays_to_dense_array and the index-to-triple run of
+   dbal_fast_gauss_scoring_vectorized are written in.  One definition per attribute / numpy / library call.
+   Further error tags: 27 np.max of an empty list (pad of no arrays), 28 "Expected {} plates to be scored",
+   30 ZeroDivisionError (len / max_chunk), 31 np.array_split "number sections must be larger than 0",
+   32 `|` of arrays of different lengths, 33 unpacking an empty zip into three names, 34 rng.choice with a negative size,
+   97 no recorded answer left / recorded answer outside numpy's contract (not a Python behaviour). *)
+Definition arr2 := list (list Qc).                       (* a 2-d float array (n_thetas x n_experiments) *)
+Definition arr3 := list (list (list Qc)).                (* a dense 3-d float array without NaN *)
+Definition arr3n := list (list (list (option Qc))).      (* a dense 3-d float array, None = NaN *)
+Definition qc := Qc.
+Definition one_q : Qc := 1.                              (* distance_factor's default 1.0 *)
+Definition tqdm_t := unit.                               (* a tqdm progress bar: nothing is read from it *)
+
+(* A ScreenSubset as GaussianDBALScorer.score sees it: its selection_vector and what predict_mean_all /
+   predict_variance_all return for it with the `samples` of the call *)
+Definition pyplate := (list bool * plate)%type.
+Definition pp_sel (p : pyplate) : list bool := fst p.
+Definition pp_means (p : pyplate) : arr2 := fst (snd p).
+Definition pp_vars (p : pyplate) : arr2 := snd (snd p).
+
+(* np.ceil(a / b), a b Python ints: ZeroDivisionError for b = 0, else the ceiling of the quotient = -floor(-a / b) *)
+Definition np_ceil_div (a b : Z) : result Z :=
+  if (b =? 0)%Z then Err 30%Z else Ok (- ((- a) / b))%Z.
+(* np.array_split(l, n) with n a number: int(n) sections, ValueError unless positive *)
+Definition np_array_split {A} (l : list A) (n : Z) : result (list (list A)) :=
+  if (n <=? 0)%Z then Err 31%Z else Ok (array_split l (Z.to_nat n)).
+(* a | b on 1-d bool arrays of one length (broadcasting of a length-1 operand is not represented) *)
+Definition np_or_vec (a b : list bool) : result (list bool) :=
+  if Nat.eqb (length a) (length b) then Ok (map (fun ab => orb (fst ab) (snd ab)) (combine a b)) else Err 32%Z.
+(* a.shape != b.shape on 2-d arrays *)
+Definition shape_ne {A B} (a : list (list A)) (b : list (list B)) : bool := negb (shape2_eqb (shape2 a) (shape2 b)).
+(* pad_ragged_arrays_to_dense_array(arrays, pad_value=0.0 / np.nan): np.max([...]) of no arrays is a ValueError *)
+Definition pad_means_py (ms : list arr2) : result arr3 :=
+  match ms with [] => Err 27%Z | _ => Ok (pad_means ms) end.
+Definition pad_vars_py (vs : list arr2) : result arr3n :=
+  match vs with [] => Err 27%Z | _ => Ok (pad_vars vs) end.
+(* one call of dbal_fast_gauss_scoring_vectorized: it consumes the next recorded rng.choice answer *)
+Definition kernel_call (orc : oracle) (pred : arr3) (vars : arr3n) (D : arr2) (df : Qc) (draws : list (list Z))
+  : result (list ext * list (list Z)) :=
+  match draws with
+  | [] => Err 97%Z
+  | idxs :: rest => dor v <- kernel_checked orc pred vars D df idxs; Ok (v, rest)
+  end.
+
+(* GaussianDBALScorer.score for ANY integer max_chunk: len(plates) / 0 is a ZeroDivisionError, a negative max_chunk
+   makes n_subs <= 0 and np.array_split raise; otherwise the model scorer.  [forget_sel]: the model's plates are the
+   (means, variances) of the ScreenSubsets (their selection vectors only feed an unused mask). *)
+Definition scorer_py (orc : oracle) (max_chunk : Z) (plates : list (Z * plate)) (D : arr2) (draws : list (list Z))
+  : result (list (Z * ext)) :=
+  match plates with
+  | [] => Ok []
+  | _ => if (max_chunk =? 0)%Z then Err 30%Z
+         else if (max_chunk <? 0)%Z then Err 31%Z
+         else scorer_checked orc (Z.to_nat max_chunk) plates D draws
+  end.
+Definition forget_sel (plates : list (Z * pyplate)) : list (Z * plate) :=
+  map (fun kp => (fst kp, snd (snd kp))) plates.
+
+(* ---- vocabulary of the translations of the dbal_fast_* wrappers and of pad_ragged_arrays_to_dense_array ---- *)
+(* np.array(a.shape) of a 2-d array *)
+Definition shape2z {A} (a : list (list A)) : Z * Z := (Z.of_nat (fst (shape2 a)), Z.of_nat (snd (shape2 a))).
+Definition dim0 {A} (a : list (list A)) : Z := Z.of_nat (fst (shape2 a)).       (* a.shape[0], a 2-d *)
+Definition dim1 {A} (a : list (list A)) : Z := Z.of_nat (snd (shape2 a)).       (* a.shape[1], a 2-d *)
+(* np.max(l, axis=0) of a list of pairs: the pair of the column maxima; ValueError (tag 27) on no rows *)
+Definition np_max_axis0 (l : list (Z * Z)) : result (Z * Z) :=
+  match l with
+  | [] => Err 27%Z
+  | x :: r => Ok (fold_left Z.max (map fst r) (fst x), fold_left Z.max (map snd r) (snd x))
+  end.
+(* pad_value * np.ones((n, h, w)): the constant array *)
+Definition np_full3 {A} (v : A) (n : nat) (hw : Z * Z) : list (list (list A)) :=
+  repeat (repeat (repeat v (Z.to_nat (snd hw))) (Z.to_nat (fst hw))) n.
+(* result[i, :a.shape[0], :a.shape[1]] = a : the cells (i, r, c) with r, c inside a take a's values *)
+Definition overlay_row {A} (src dst : list A) : list A := src ++ skipn (length src) dst.
+Fixpoint overlay2 {A} (src dst : list (list A)) : list (list A) :=
+  match src, dst with
+  | [], _ => dst
+  | r :: src', d :: dst' => overlay_row r d :: overlay2 src' dst'
+  | _ :: _, [] => []
+  end.
+Definition set_block {A} (res : list (list (list A))) (i : Z) (a : list (list A)) : list (list (list A)) :=
+  let j := Z.to_nat i in
+  firstn j res ++ match skipn j res with [] => [] | d :: r => overlay2 a d :: r end.
+(* v[:, None] * np.ones((n, e)) for a 1-d v with n = len(v) (broadcasting against another row count is not
+   represented: tag 35 is then not a Python behaviour; the translated function always passes n = v.shape[0]) *)
+Definition np_col_times_ones (v : list Qc) (n e : Z) : result arr2 :=
+  if (Z.of_nat (length v) =? n)%Z then Ok (map (fun x => repeat (x * 1) (Z.to_nat e)) v) else Err 35%Z.
+
+(* ---- vocabulary of the translations of the two non-numeric statement runs of dbal_fast_gauss_scoring_vectorized:
+   the three shape checks, and the run from `n_plates, n_thetas, ... = predictions.shape` to `idx3 = np.array(idx3)` ---- *)
+Definition shape3_ne {A B} (a : list (list (list A))) (b : list (list (list B))) : bool :=     (* a.shape != b.shape, 3-d *)
+  let '(p, t, e) := shape3 a in let '(p', t', e') := shape3 b in
+  negb (Nat.eqb p p' && Nat.eqb t t' && Nat.eqb e e').
+Definition shape3z {A} (a : list (list (list A))) : Z * Z * Z :=                               (* a.shape, 3-d *)
+  let '(p, t, e) := shape3 a in (Z.of_nat p, Z.of_nat t, Z.of_nat e).
+Definition dim3_1 {A} (a : list (list (list A))) : Z := Z.of_nat (snd (fst (shape3 a))).       (* a.shape[1], 3-d *)
+(* scipy.special.comb(n, 3, exact=True) *)
+Definition comb3 (n : Z) : Z := if (n <? 3)%Z then 0%Z else (n * (n - 1) * (n - 2) / 6)%Z.
+(* numpy's contract for rng.choice(n, size=k, replace=False): k distinct values of range(n) *)
+Fixpoint zdistinct (l : list Z) : bool :=
+  match l with [] => true | x :: r => negb (existsb (Z.eqb x) r) && zdistinct r end.
+Definition choice_ok (n k : Z) (d : list Z) : bool :=
+  (Z.of_nat (length d) =? k)%Z && forallb (fun x => (0 <=? x)%Z && (x <? n)%Z) d && zdistinct d.
+(* rng.choice(n, size=k, replace=False): ValueError for a negative size (34) or a sample larger than the population (36);
+   otherwise the next recorded answer, refused (97) unless it obeys the contract *)
+Definition rng_choice (n k : Z) (draws : list (list Z)) : result (list Z * list (list Z)) :=
+  if (k <? 0)%Z then Err 34%Z
+  else if (n <? k)%Z then Err 36%Z
+  else match draws with
+       | [] => Err 97%Z
+       | d :: rest => if choice_ok n k d then Ok (d, rest) else Err 97%Z
+       end.
+(* get_combination_at_sorted_index(i, n, 3) = tuple(generate_combination_at_sorted_index(i, n, 3)): Model/Unrank.v *)
+Definition unrank3 (i n : Z) : result (Z * Z * Z) :=
+  dor l <- unrank i n 3;
+  match l with [a; b; c] => Ok (a, b, c) | _ => Err 9%Z end.
+(* idx1, idx2, idx3 = zip( *rows ): the three columns; unpacking an empty zip is a ValueError *)
+Definition unzip3 (l : list (Z * Z * Z)) : result (list Z * list Z * list Z) :=
+  match l with
+  | [] => Err 33%Z
+  | _ => Ok (map (fun t => fst (fst t)) l, map (fun t => snd (fst t)) l, map (fun t => snd t) l)
+  end.
+(* the (idx1, idx2, idx3) index arrays as the model's list of triples *)
+Fixpoint zip3_nat (a b c : list Z) : list triple :=
+  match a, b, c with
+  | x :: a', y :: b', z :: c' => (Z.to_nat x, Z.to_nat y, Z.to_nat z) :: zip3_nat a' b' c'
+  | _, _, _ => []
+  end.
+Definition nat_triples (idx : list Z * list Z * list Z) : list triple :=
+  zip3_nat (fst (fst idx)) (snd (fst idx)) (snd idx).
